@@ -125,6 +125,9 @@ class BasisSHO(BasisSet):
 
     is_phonon = True
 
+    _second_quantization_symbols = ("b", "b b", r"b^\dagger", r"b^\dagger b^\dagger", r"b^\dagger+b", r"b^\dagger-b",
+                                    r"b^\dagger b", r"b b^\dagger", "n")
+
     def __init__(self, dof, omega, nbas, x0=0., dvr=False, general_xp_power=False):
         self.omega = omega
         self.x0 = x0  # origin = x0
@@ -146,6 +149,15 @@ class BasisSHO(BasisSet):
         return f"BasisSHO(dof: {self.dof}, x0: {self.x0}, omega: {self.omega}, nbas: {self.nbas})"
 
     def op_mat(self, op: Union[Op, str]):
+        # `_op_mat` calls itself through this method for its building blocks.
+        # The depth counter is restored even if the request is refused with an exception
+        depth = self._recursion_flag
+        try:
+            return self._op_mat(op)
+        finally:
+            self._recursion_flag = depth
+
+    def _op_mat(self, op: Union[Op, str]):
         if not isinstance(op, Op):
             op = Op(op, None)
         op_symbol, op_factor = op.symbol, op.factor
@@ -338,6 +350,11 @@ class BasisSHO(BasisSet):
         else:
             self._recursion_flag -= 1
             raise ValueError(f"op_symbol:{op_symbol} is not supported. ")
+
+        if self.dvr and self._recursion_flag == 1 and op_symbol in self._second_quantization_symbols:
+            # the second quantization matrices above are building blocks in the SHO eigenbasis.
+            # When requested by the user they are rotated to the DVR basis like all other operators
+            mat = self.dvr_v.T @ mat @ self.dvr_v
 
         self._recursion_flag -= 1
         return mat * op_factor
